@@ -697,21 +697,21 @@ Section Proofs.
   (* ----------------------------------------------------------------------------------------- *)
   (* lyd_validate_final_r: per error class, what the sequential checks establish                  *)
   (* ----------------------------------------------------------------------------------------- *)
-  (* lyd_validate_unique as coded, as a boolean on the instances of list s *)
-  Definition uq_impl (f : forest) (s : sid) : bool :=
+  (* lyd_validate_unique as coded, as a boolean on the instances of list s (schema children ls) *)
+  Definition uq_impl (f : forest) (s : sid) (ls : list stree) : bool :=
     match kind vs s with
-    | KList => pairwise (fun a b => negb (existsb (fun u => uq_equal vs u a b) (uniques_of vs s))) (insts f s)
+    | KList => pairwise (fun a b => negb (existsb (fun u => uq_equal vs ls u a b) (uniques_of vs s))) (insts f s)
     | _ => true
     end.
 
-  (* the constraint of class e on schema node s / on a choice, in context f *)
-  Definition Pn (e : verr) : forest -> sid -> bool :=
+  (* the constraint of class e on schema node s (schema children ch) / on a choice, in context f *)
+  Definition Pn (e : verr) : forest -> sid -> list stree -> bool :=
     match e with
     | ENoMand => mand_node vs
     | ENoMin => min_node vs
-    | ENoMax => max_node vs
+    | ENoMax => fun f s _ => max_node vs f s
     | ENoUniq => uq_impl
-    | _ => fun _ _ => true
+    | _ => fun _ _ _ => true
     end.
   Definition Pc (e : verr) : forest -> bool -> list stree -> bool :=
     match e with
@@ -720,7 +720,7 @@ Section Proofs.
     end.
 
   Definition nokb (f : forest) (e : verr) (t : stree) : bool :=
-    match t with TNode s _ => Pn e f s | _ => true end.
+    match t with TNode s ch => Pn e f s ch | _ => true end.
 
   Fixpoint cokb (f : forest) (e : verr) (t : stree) {struct t} : bool :=
     match t with
@@ -794,7 +794,7 @@ Section Proofs.
     - rewrite mm_eq, minmax_eq. unfold uniq_check.
       eapply vspec_ext.
       + apply vspec_vand'; [apply vspec_vand'; apply vspec_chk|].
-        instantiate (1 := fun e => e = ENoUniq -> uq_impl f s = true). unfold uq_impl. rewrite Ek.
+        instantiate (1 := fun e => e = ENoUniq -> uq_impl f s ch = true). unfold uq_impl. rewrite Ek.
         destruct (uniques_of vs s) as [|u us] eqn:Eu.
         * eapply vspec_ext; [apply vspec_ok|]. intro e. split; [intros _ _|auto]. apply pairwise_all_true.
         * apply vspec_chk.
@@ -931,7 +931,7 @@ Section Proofs.
     Qed.
 
     (* in a context without data a node that is not mandatory is satisfied *)
-    Lemma Pn_nil s ch : mand_t vs (TNode s ch) = false -> Pn e [] s = true.
+    Lemma Pn_nil s ch : mand_t vs (TNode s ch) = false -> Pn e [] s ch = true.
     Proof.
       cbn [mand_t]. intro H. destruct e; cbn [Pn]; try reflexivity.
       - unfold mand_node. cbn [has_sid existsb]. destruct (kind vs s) as [[|]| | | |]; try reflexivity; rewrite H; reflexivity.
@@ -1309,26 +1309,50 @@ Section Proofs.
     - apply forallb_forall. exact IH.
   Qed.
 
-  (* a constraint that holds for every schema node without instances needs no enforcement condition *)
-  Lemma req_flat (P : forest -> sid -> bool) :
-    (forall f s, has_sid f s = false -> P f s = true) ->
-    forall t f, req vs P (fun _ _ _ => true) f true t = forallb (P f) (st_sids t).
+  (* a constraint that holds for every schema node without instances needs no enforcement condition: it can be read
+     on every schema node of the level *)
+  Fixpoint flat_t (P : forest -> sid -> list stree -> bool) (f : forest) (t : stree) : bool :=
+    match t with
+    | TNode s ch => P f s ch
+    | TChoice _ _ cs => forallb (flat_t P f) cs
+    | TCase _ _ ch => forallb (flat_t P f) ch
+    end.
+
+  Lemma flat_t_nodata P f t : (forall f s ch, has_sid f s = false -> P f s ch = true) ->
+    sub_has_data f t = false -> flat_t P f t = true.
+  Proof.
+    intro Habs. induction t as [s ch IH|cid m cs IH|c d ch IH] using stree_ind'; intro H; cbn [flat_t]; rewrite Forall_forall in IH.
+    - apply Habs. rewrite sub_has_data_node in H. exact H.
+    - rewrite sub_has_data_choice in H. apply forallb_forall. intros x Hx. apply (IH x Hx), (existsb_false_inv _ _ H x Hx).
+    - rewrite sub_has_data_case in H. apply forallb_forall. intros x Hx. apply (IH x Hx), (existsb_false_inv _ _ H x Hx).
+  Qed.
+
+  Lemma req_flat_t (P : forest -> sid -> list stree -> bool) :
+    (forall f s ch, has_sid f s = false -> P f s ch = true) ->
+    forall t f, req vs P (fun _ _ _ => true) f true t = flat_t P f t.
   Proof.
     intros Habs t. induction t as [s ch IH|cid m cs IH|c d ch IH] using stree_ind'; intro f; rewrite Forall_forall in IH;
-      cbn [req st_sids negb orb andb forallb].
-    - rewrite andb_true_r.
-      replace (match kind vs s with
+      cbn [req flat_t negb orb andb].
+    - replace (match kind vs s with
                | KCont false => has_sid f s || false || forallb (req vs P (fun _ _ _ => true) [] true) ch
                | _ => true end) with true; [apply andb_true_r|].
       destruct (kind vs s) as [[|]| | | |]; try reflexivity.
       symmetry. apply orb_true_iff. right. apply forallb_forall. intros x Hx. rewrite (IH x Hx).
-      apply forallb_forall. intros s' _. apply Habs. reflexivity.
-    - rewrite forallb_flat_map. apply forallb_ext_in. intros x Hx. apply (IH x Hx).
-    - rewrite forallb_flat_map. destruct (sub_has_data f (TCase c d ch)) eqn:E.
+      apply flat_t_nodata; [exact Habs|apply sub_has_data_nil].
+    - apply forallb_ext_in. intros x Hx. apply (IH x Hx).
+    - destruct (sub_has_data f (TCase c d ch)) eqn:E.
       + apply forallb_ext_in. intros x Hx. apply (IH x Hx).
       + rewrite (forallb_true _ ch (fun x _ => req_false_gen P _ f x)). symmetry.
-        rewrite <- forallb_flat_map. apply forallb_forall. intros s Hs. apply Habs.
-        unfold sub_has_data in E. cbn [st_sids] in E. apply (existsb_false_inv _ _ E s Hs).
+        rewrite sub_has_data_case in E. apply forallb_forall. intros x Hx.
+        apply flat_t_nodata; [exact Habs|apply (existsb_false_inv _ _ E x Hx)].
+  Qed.
+
+  Lemma flat_t_sids (P : forest -> sid -> bool) f t : flat_t (fun f s _ => P f s) f t = forallb (P f) (st_sids t).
+  Proof.
+    induction t as [s ch IH|cid m cs IH|c d ch IH] using stree_ind'; cbn [flat_t st_sids forallb]; rewrite Forall_forall in IH.
+    - symmetry. apply andb_true_r.
+    - rewrite forallb_flat_map. apply forallb_ext_in. exact IH.
+    - rewrite forallb_flat_map. apply forallb_ext_in. exact IH.
   Qed.
 
   Lemma insts_nodata f s : has_sid f s = false -> insts f s = [].
@@ -1341,35 +1365,60 @@ Section Proofs.
     match e with ENoMand | ENoMandChoice | ENoMin | ENoMax | ENoUniq => False | _ => True end -> Pe e l f = true.
   Proof.
     intro H. unfold Pe. apply forallb_forall. intros t _.
-    assert (E : Pn e = (fun _ _ => true) /\ Pc e = (fun _ _ _ => true)) by (destruct e; try contradiction; split; reflexivity).
-    destruct E as [E1 E2]. rewrite E1, E2. rewrite (req_flat (fun _ _ => true) (fun _ _ _ => eq_refl)).
-    apply forallb_forall. reflexivity.
+    assert (E : Pn e = (fun _ _ _ => true) /\ Pc e = (fun _ _ _ => true)) by (destruct e; try contradiction; split; reflexivity).
+    destruct E as [E1 E2]. rewrite E1, E2. rewrite (req_flat_t (fun _ _ _ => true) (fun _ _ _ _ => eq_refl)).
+    induction t as [s ch IH|cid m cs IH|c d ch IH] using stree_ind'; cbn [flat_t]; [reflexivity| |];
+      rewrite Forall_forall in IH; apply forallb_forall; exact IH.
   Qed.
 
   Lemma Pe_max l f : Pe ENoMax l f = max_ctx vs l f.
   Proof.
     unfold Pe, max_ctx. cbn [Pn Pc]. rewrite forallb_flat_map. apply forallb_ext_in. intros t _.
-    apply req_flat. intros f' s H. unfold max_node, count. rewrite (insts_nodata f' s H). cbn [length].
+    rewrite req_flat_t; [apply (flat_t_sids (max_node vs))|].
+    intros f' s _ H. unfold max_node, count. rewrite (insts_nodata f' s H). cbn [length].
     destruct (kind vs s) as [[|]| | | |]; try reflexivity; destruct (si_max (info vs s)) as [[|?]|]; reflexivity.
   Qed.
 
-  Lemma Pe_uniq l f : Pe ENoUniq l f = forallb (uq_impl f) (flat_map st_sids l).
+  Lemma Pe_uniq l f : Pe ENoUniq l f = forallb (flat_t uq_impl f) l.
   Proof.
-    unfold Pe. cbn [Pn Pc]. rewrite forallb_flat_map. apply forallb_ext_in. intros t _.
-    apply req_flat. intros f' s H. unfold uq_impl. rewrite (insts_nodata f' s H). destruct (kind vs s); reflexivity.
+    unfold Pe. cbn [Pn Pc]. apply forallb_ext_in. intros t _.
+    apply req_flat_t. intros f' s ch H. unfold uq_impl. rewrite (insts_nodata f' s H). destruct (kind vs s); reflexivity.
   Qed.
 
   (* ----------------------------------------------------------------------------------------- *)
-  (* unique: lyd_validate_unique = RFC 7950 7.8.3 when no default can be out of use               *)
+  (* unique: lyd_validate_unique (with lyd_val_uniq_dflt_in_use) = RFC 7950 7.8.3 / 7.6.1          *)
   (* ----------------------------------------------------------------------------------------- *)
   Definition dflt_of (p : list sid) : option bytes :=
     match si_dflts (info vs (last p 0)) with d :: _ => Some d | [] => None end.
-  Definition uqv (fc : forest) (p : list sid) : option bytes :=
-    match uq_find fc p with Some x => Some (d_val x) | None => dflt_of p end.
+  Definition uqv (l : list stree) (fc : forest) (p : list sid) : option bytes :=
+    match uq_find fc p with
+    | Some x => Some (d_val x)
+    | None => match dflt_of p with
+              | Some d => if uq_dflt_in_use vs l fc p then Some d else None
+              | None => None
+              end
+    end.
   Definition olist (o : option bytes) : list bytes := match o with Some v => [v] | None => [] end.
 
-  Lemma uq_val_uqv n p : uq_val vs n p = uqv (d_ch n) p.
-  Proof. reflexivity. Qed.
+  Lemma uq_val_uqv ls n p : uq_val vs ls n p = uqv ls (d_ch n) p.
+  Proof. unfold uq_val, uqv, dflt_of. destruct (uq_find (d_ch n) p); [reflexivity|]. destruct (si_dflts (info vs (last p 0))); reflexivity. Qed.
+
+  Lemma first_some_ext_in {A B} (g g' : A -> option B) l : (forall x, In x l -> g x = g' x) -> first_some g l = first_some g' l.
+  Proof.
+    intro H. induction l as [|x l IH]; cbn [first_some]; [reflexivity|]. rewrite (H x (or_introl eq_refl)).
+    destruct (g' x); [reflexivity|]. apply IH. intros y Hy. apply H. right. exact Hy.
+  Qed.
+
+  Lemma cases_in_eff f s t : forall ok chd, cases_in f ok chd s t = eff_in f ok chd s t.
+  Proof.
+    induction t as [s' ch IH|cid m cs IH|c d ch IH] using stree_ind'; intros ok chd; cbn [cases_in eff_in]; rewrite Forall_forall in IH.
+    - reflexivity.
+    - apply first_some_ext_in. intros x Hx. apply IH, Hx.
+    - apply first_some_ext_in. intros x Hx. apply IH, Hx.
+  Qed.
+
+  Lemma cases_exist_eff l f s : cases_exist l f s = in_effect l f s.
+  Proof. unfold cases_exist, in_effect. rewrite (first_some_ext_in _ (eff_in f true false s) l (fun x _ => cases_in_eff f s x true false)). reflexivity. Qed.
 
   Lemma eff_in_none f s t : forall eff chd, existsb (N.eqb s) (st_sids t) = false -> eff_in f eff chd s t = None.
   Proof.
@@ -1388,40 +1437,45 @@ Section Proofs.
       apply IHr; intros y Hy; [apply IH|apply Hc]; right; exact Hy.
   Qed.
 
-  Lemma plain_in_effect l f s : plain l s = true -> in_effect l f s = true.
+  Lemma first_some_found {A} (g : A -> option bool) (mem : A -> bool) l :
+    (forall x, In x l -> mem x = false -> g x = None) -> (forall x, In x l -> mem x = true -> g x = Some true) ->
+    existsb mem l = true -> first_some g l = Some true.
   Proof.
-    unfold plain, in_effect. induction l as [|t l IH]; cbn [first_some]; [discriminate|].
-    destruct t as [s' ch|cid m cs|c d ch]; cbn [plain_in].
-    - cbn [eff_in]. destruct (s' =? s); [reflexivity|exact IH].
-    - destruct (existsb (N.eqb s) (st_sids (TChoice cid m cs))) eqn:E; [discriminate|].
-      rewrite (eff_in_none f s _ true false E). exact IH.
-    - destruct (existsb (N.eqb s) (st_sids (TCase c d ch))) eqn:E; [discriminate|].
-      rewrite (eff_in_none f s _ true false E). exact IH.
+    intros H0 H1. induction l as [|x l IH]; cbn [existsb first_some]; [discriminate|]. intro H.
+    destruct (mem x) eqn:E.
+    - rewrite (H1 x (or_introl eq_refl) E). reflexivity.
+    - rewrite (H0 x (or_introl eq_refl) E). cbn [orb] in H.
+      apply IH; [intros y Hy; apply H0; right; exact Hy|intros y Hy; apply H1; right; exact Hy|exact H].
+  Qed.
+
+  (* a schema node that has an instance is in effect: every case around it has data *)
+  Lemma eff_in_found f s t : has_sid f s = true -> forall chd, existsb (N.eqb s) (st_sids t) = true -> eff_in f true chd s t = Some true.
+  Proof.
+    intro Hh. induction t as [s' ch IH|cid m cs IH|c d ch IH] using stree_ind'; intros chd H; cbn [eff_in]; rewrite Forall_forall in IH.
+    - cbn [st_sids existsb] in H. rewrite orb_false_r in H. rewrite N.eqb_sym, H. reflexivity.
+    - cbn [st_sids] in H. rewrite existsb_flat_map in H.
+      apply (first_some_found _ (fun x => existsb (N.eqb s) (st_sids x))); [| |exact H].
+      + intros x _ E. apply eff_in_none, E.
+      + intros x Hx E. apply (IH x Hx), E.
+    - assert (Hd : sub_has_data f (TCase c d ch) = true).
+      { unfold sub_has_data. apply existsb_exists in H. destruct H as [s0 [Hs0 E]]. apply N.eqb_eq in E. subst s0.
+        apply existsb_exists. exists s. split; assumption. }
+      rewrite Hd. cbn [andb orb]. cbn [st_sids] in H. rewrite existsb_flat_map in H.
+      apply (first_some_found _ (fun x => existsb (N.eqb s) (st_sids x))); [| |exact H].
+      + intros x _ E. apply eff_in_none, E.
+      + intros x Hx E. apply (IH x Hx), E.
+  Qed.
+
+  Lemma in_effect_has l f s : has_sid f s = true -> existsb (N.eqb s) (flat_map st_sids l) = true -> in_effect l f s = true.
+  Proof.
+    intros Hh H. unfold in_effect. rewrite existsb_flat_map in H.
+    rewrite (first_some_found (eff_in f true false s) (fun x => existsb (N.eqb s) (st_sids x)) l); [reflexivity| | |exact H].
+    - intros x _ E. apply eff_in_none, E.
+    - intros x _ E. apply (eff_in_found f s x Hh), E.
   Qed.
 
   Lemma last_cons2 (s s2 : sid) p2 : last (s :: s2 :: p2) 0 = last (s2 :: p2) 0.
   Proof. reflexivity. Qed.
-
-  Lemma uvals_nil_nodflt : forall p l, dflt_of p = None -> uvals vs l [] p = [].
-  Proof.
-    induction p as [|s p IH]; intros l H; [reflexivity|].
-    destruct p as [|s2 p2].
-    - cbn [uvals insts filter]. unfold dflt_of in H. cbn [last] in H. unfold leaf_dflt.
-      destruct (si_dflts (info vs s)); [|discriminate]. destruct (in_effect l [] s); reflexivity.
-    - cbn [uvals insts filter]. destruct (kind vs s) as [[|]| | | |]; try reflexivity.
-      destruct (in_effect l [] s); [|reflexivity]. apply IH. unfold dflt_of in *. rewrite last_cons2 in H. exact H.
-  Qed.
-
-  Lemma uvals_nil_plain : forall p s l d, path_plain vs l (s :: p) = true -> dflt_of (s :: p) = Some d ->
-    uvals vs l [] (s :: p) = [d].
-  Proof.
-    induction p as [|s2 p2 IH]; intros s l d Hp H.
-    - cbn [uvals insts filter]. cbn [path_plain] in Hp. rewrite (plain_in_effect l [] s Hp).
-      unfold dflt_of in H. cbn [last] in H. unfold leaf_dflt. destruct (si_dflts (info vs s)); [discriminate|]. inversion H. reflexivity.
-    - cbn [uvals insts filter]. cbn [path_plain] in Hp. apply andb_true_iff in Hp. destruct Hp as [Hp Hp3].
-      apply andb_true_iff in Hp. destruct Hp as [Hp1 Hp2]. rewrite (plain_in_effect l [] s Hp1).
-      destruct (kind vs s) as [[|]| | | |]; try discriminate. apply IH; [exact Hp3|]. unfold dflt_of in *. rewrite last_cons2 in H. exact H.
-  Qed.
 
   Lemma common_olist a b :
     common (olist a) (olist b) = match a, b with Some x, Some y => beq_bytes x y | _, _ => false end.
@@ -1441,6 +1495,12 @@ Section Proofs.
     right. exists c. repeat split. assert (Hc : In c (insts fc s)) by (rewrite E; left; reflexivity).
     - apply filter_In in Hc. apply Hc.
     - assert (Hc : In c (insts fc s)) by (rewrite E; left; reflexivity). apply filter_In in Hc. apply N.eqb_eq, Hc.
+  Qed.
+
+  Lemma all_ctx_single_l : forall f l l2, all_ctx (single_ctx vs) l f = all_ctx (single_ctx vs) l2 f.
+  Proof.
+    induction f as [f IH] using forest_ind'. intros l l2. unfold all_ctx. f_equal.
+    apply forallb_ext_in. intros n Hn. rewrite !all_ctx_node_unfold. apply (IH n Hn).
   Qed.
 
   Lemma uvals_one l f s :
@@ -1465,54 +1525,58 @@ Section Proofs.
     uq_find fc (s :: s2 :: p2) = match find_sid fc s with Some c => uq_find (d_ch c) (s2 :: p2) | None => None end.
   Proof. reflexivity. Qed.
 
-  Lemma path_plain_cons2 l s s2 p2 :
-    path_plain vs l (s :: s2 :: p2) =
-    plain l s && match kind vs s with KCont false => true | _ => false end && path_plain vs (st_children l s) (s2 :: p2).
+  Lemma uq_find_nil p : uq_find [] p = None.
+  Proof. destruct p as [|s [|s2 p2]]; reflexivity. Qed.
+
+  Lemma in_use_one l f s : uq_dflt_in_use vs l f [s] = cases_exist l f s.
+  Proof. cbn [uq_dflt_in_use]. destruct (find_sid f s); apply andb_true_r. Qed.
+
+  Lemma in_use_cons2 l f s s2 p2 :
+    uq_dflt_in_use vs l f (s :: s2 :: p2) =
+    cases_exist l f s &&
+    match find_sid f s with
+    | Some c => uq_dflt_in_use vs (st_children l s) (d_ch c) (s2 :: p2)
+    | None => match kind vs s with KCont true => false | _ => uq_dflt_in_use vs (st_children l s) [] (s2 :: p2) end
+    end.
   Proof. reflexivity. Qed.
 
   Lemma upath_ok_cons2 s s2 p2 :
     upath_ok vs (s :: s2 :: p2) = match kind vs s with KCont _ => upath_ok vs (s2 :: p2) | _ => false end.
   Proof. reflexivity. Qed.
 
+  Lemma single_nil l : all_ctx (single_ctx vs) l [] = true.
+  Proof. reflexivity. Qed.
+
   Lemma uvals_impl : forall p l fc,
-    all_ctx (single_ctx vs) l fc = true -> upath_ok vs p = true ->
-    (forall d, dflt_of p = Some d -> path_plain vs l p = true) ->
-    uvals vs l fc p = olist (uqv fc p).
+    all_ctx (single_ctx vs) l fc = true -> upath_ok vs p = true -> upath_in l p = true ->
+    uvals vs l fc p = olist (uqv l fc p).
   Proof.
     induction p as [|s p IH]; intros l fc Hs Hu Hp; [cbn in Hu; discriminate|].
+    cbn [upath_in] in Hp. apply andb_true_iff in Hp. destruct Hp as [Hin Hp].
     destruct p as [|s2 p2].
     - cbn [upath_ok] in Hu. assert (Hm : multi (vs_info vs) s = false) by (rewrite kind_multi; destruct (kind vs s); try discriminate; reflexivity).
-      rewrite uvals_one. unfold uqv. cbn [uq_find].
-      destruct (insts_single l fc s Hs Hm) as [[E1 E2]|[c [E1 [E2 _]]]]; rewrite E1, E2.
-      + destruct (dflt_of [s]) as [d|] eqn:Ed.
-        * specialize (Hp d eq_refl). cbn [path_plain] in Hp. rewrite (plain_in_effect l fc s Hp).
-          unfold dflt_of in Ed. cbn [last] in Ed. unfold leaf_dflt. destruct (si_dflts (info vs s)); [discriminate|]. inversion Ed. reflexivity.
-        * unfold dflt_of in Ed. cbn [last] in Ed. unfold leaf_dflt. destruct (si_dflts (info vs s)); [|discriminate].
-          destruct (in_effect l fc s); reflexivity.
-      + reflexivity.
+      rewrite uvals_one. unfold uqv. cbn [uq_find]. rewrite in_use_one, (cases_exist_eff l fc s).
+      destruct (insts_single l fc s Hs Hm) as [[E1 E2]|[c [E1 [E2 _]]]]; rewrite E1, E2; [|reflexivity].
+      unfold dflt_of, leaf_dflt. cbn [last]. destruct (si_dflts (info vs s)); destruct (in_effect l fc s); reflexivity.
     - rewrite upath_ok_cons2 in Hu.
       assert (Hm : multi (vs_info vs) s = false) by (rewrite kind_multi; destruct (kind vs s); try discriminate; reflexivity).
       assert (Hu2 : upath_ok vs (s2 :: p2) = true) by (destruct (kind vs s); try discriminate; exact Hu).
-      clear Hu. rewrite uvals_cons2. unfold uqv. rewrite uq_find_cons2.
+      assert (Hd : dflt_of (s :: s2 :: p2) = dflt_of (s2 :: p2)) by (unfold dflt_of; rewrite last_cons2; reflexivity).
+      rewrite uvals_cons2. unfold uqv. rewrite uq_find_cons2, in_use_cons2, (cases_exist_eff l fc s), Hd.
       destruct (insts_single l fc s Hs Hm) as [[E1 E2]|[c [E1 [E2 [Hc Hcs]]]]]; rewrite E1, E2.
-      + destruct (dflt_of (s :: s2 :: p2)) as [d|] eqn:Ed.
-        * specialize (Hp d eq_refl). rewrite path_plain_cons2 in Hp. apply andb_true_iff in Hp. destruct Hp as [Hp Hp3].
-          apply andb_true_iff in Hp. destruct Hp as [Hp1 Hp2]. rewrite (plain_in_effect l fc s Hp1).
-          destruct (kind vs s) as [[|]| | | |]; try discriminate.
-          apply uvals_nil_plain; [exact Hp3|]. unfold dflt_of in *. rewrite last_cons2 in Ed. exact Ed.
-        * assert (Ed2 : dflt_of (s2 :: p2) = None) by (unfold dflt_of in *; rewrite last_cons2 in Ed; exact Ed).
-          destruct (kind vs s) as [[|]| | | |]; try reflexivity. destruct (in_effect l fc s); [|reflexivity].
-          apply uvals_nil_nodflt. exact Ed2.
+      + pose proof (IH (st_children l s) [] (single_nil _) Hu2 Hp) as IH0. unfold uqv in IH0. rewrite uq_find_nil in IH0.
+        destruct (kind vs s) as [[|]| | | |]; try discriminate.
+        * rewrite andb_false_r. destruct (dflt_of (s2 :: p2)); reflexivity.
+        * destruct (in_effect l fc s); cbn [andb]; [exact IH0|]. destruct (dflt_of (s2 :: p2)); reflexivity.
       + cbn [flat_map]. rewrite app_nil_r.
-        assert (Eq : match uq_find (d_ch c) (s2 :: p2) with Some x => Some (d_val x) | None => dflt_of (s :: s2 :: p2) end = uqv (d_ch c) (s2 :: p2)).
-        { unfold uqv, dflt_of. rewrite last_cons2. reflexivity. }
-        rewrite Eq. apply IH; [|exact Hu2|].
-        * apply all_ctx_iff in Hs. destruct Hs as [_ Hs]. rewrite <- Hcs. apply Hs, Hc.
-        * intros d Hd. assert (Hd' : dflt_of (s :: s2 :: p2) = Some d) by (unfold dflt_of in *; rewrite last_cons2; exact Hd).
-          specialize (Hp d Hd'). rewrite path_plain_cons2 in Hp. apply andb_true_iff in Hp. apply Hp.
+        assert (Hh : has_sid fc s = true).
+        { unfold has_sid. apply existsb_exists. exists c. split; [exact Hc|]. apply N.eqb_eq. exact Hcs. }
+        rewrite (in_effect_has l fc s Hh Hin). cbn [andb].
+        apply (IH (st_children l s) (d_ch c)); [|exact Hu2|exact Hp].
+        apply all_ctx_iff in Hs. destruct Hs as [_ Hs]. rewrite <- Hcs. apply Hs, Hc.
   Qed.
 
-  Definition wfu (l : list stree) : Prop := forall t, In t l -> uniq_plain_t vs t = true.
+  Definition wfu (l : list stree) : Prop := forall t, In t l -> uniq_placed_t vs t = true.
 
   Lemma uniques_of_ok s u p : uniq_ok vs = true -> In u (uniques_of vs s) -> In p u -> upath_ok vs p = true.
   Proof.
@@ -1521,16 +1585,12 @@ Section Proofs.
     rewrite forallb_forall in H. specialize (H u Hu). rewrite forallb_forall in H. apply H, Hp.
   Qed.
 
-  Lemma st_find_plain s t ch : uniq_plain_t vs t = true -> st_find s t = Some ch ->
-    (forall u p d, In u (uniques_of vs s) -> In p u -> dflt_of p = Some d -> path_plain vs ch p = true) /\ wfu ch.
+  Lemma st_find_placed s t ch : uniq_placed_t vs t = true -> st_find s t = Some ch -> wfu ch.
   Proof.
     revert ch. induction t as [s' c IH|cid m cs IH|c d cc IH] using stree_ind'; intros ch Hd Hf;
-      cbn [st_find uniq_plain_t] in *; rewrite Forall_forall in IH.
-    - destruct (s' =? s) eqn:E; [|discriminate]. apply N.eqb_eq in E. subst s'. inversion Hf; subst.
-      apply andb_true_iff in Hd. destruct Hd as [Hd1 Hd2]. rewrite forallb_forall in Hd1, Hd2. split; [|intros t Ht; apply Hd2, Ht].
-      intros u p d Hu Hp Hdf. specialize (Hd1 u Hu). rewrite forallb_forall in Hd1. specialize (Hd1 p Hp).
-      unfold dflt_of in Hdf. destruct (si_dflts (info vs (last p 0))) eqn:Esd; [discriminate|].
-      change (@last N p 0) with (@last sid p 0) in Hd1. rewrite Esd in Hd1. exact Hd1.
+      cbn [st_find uniq_placed_t] in *; rewrite Forall_forall in IH.
+    - destruct (s' =? s) eqn:E; [|discriminate]. inversion Hf; subst.
+      apply andb_true_iff in Hd. destruct Hd as [_ Hd2]. rewrite forallb_forall in Hd2. exact Hd2.
     - rewrite forallb_forall in Hd. destruct (first_some_in _ _ _ Hf) as [x [Hx Ex]]. apply (IH x Hx ch (Hd x Hx) Ex).
     - rewrite forallb_forall in Hd. destruct (first_some_in _ _ _ Hf) as [x [Hx Ex]]. apply (IH x Hx ch (Hd x Hx) Ex).
   Qed.
@@ -1538,21 +1598,7 @@ Section Proofs.
   Lemma st_children_wfu l s : wfu l -> wfu (st_children l s).
   Proof.
     intro H. unfold st_children. destruct (first_some (st_find s) l) as [ch|] eqn:E; [|intros t []].
-    destruct (first_some_in _ _ _ E) as [x [Hx Ex]]. apply (st_find_plain s x ch (H x Hx) Ex).
-  Qed.
-
-  Lemma st_find_some s t : In s (st_sids t) -> st_find s t <> None.
-  Proof.
-    induction t as [s' c IH|cid m cs IH|c d cc IH] using stree_ind'; cbn [st_sids st_find]; rewrite Forall_forall in IH.
-    - intros [->|[]]. rewrite N.eqb_refl. discriminate.
-    - intro H. apply in_flat_map in H. destruct H as [x [Hx Hs]]. clear -IH Hx Hs.
-      induction cs as [|y r IHr]; [destruct Hx|]. cbn [first_some]. destruct (st_find s y) eqn:E; [discriminate|].
-      destruct Hx as [->|Hx]; [exfalso; apply (IH x (or_introl eq_refl) Hs E)|].
-      apply IHr; [intros z Hz; apply IH; right; exact Hz|exact Hx].
-    - intro H. apply in_flat_map in H. destruct H as [x [Hx Hs]]. clear -IH Hx Hs.
-      induction cc as [|y r IHr]; [destruct Hx|]. cbn [first_some]. destruct (st_find s y) eqn:E; [discriminate|].
-      destruct Hx as [->|Hx]; [exfalso; apply (IH x (or_introl eq_refl) Hs E)|].
-      apply IHr; [intros z Hz; apply IH; right; exact Hz|exact Hx].
+    destruct (first_some_in _ _ _ E) as [x [Hx Ex]]. apply (st_find_placed s x ch (H x Hx) Ex).
   Qed.
 
   Lemma existsb_ext_in {A} (p q : A -> bool) l : (forall x, In x l -> p x = q x) -> existsb p l = existsb q l.
@@ -1569,34 +1615,41 @@ Section Proofs.
     - apply IH. intros a b Ha Hb. apply H; right; assumption.
   Qed.
 
-  Lemma uniq_node_eq l f s : wfu l -> uniq_ok vs = true -> all_ctx (single_ctx vs) l f = true ->
-    In s (flat_map st_sids l) -> uq_impl f s = unique_node vs l f s.
+  Lemma uniq_node_eq f s ch : uniq_ok vs = true ->
+    (forall a, In a f -> all_ctx (single_ctx vs) ch (d_ch a) = true) ->
+    forallb (forallb (upath_in ch)) (uniques_of vs s) = true ->
+    uq_impl f s ch = unique_node vs ch f s.
   Proof.
-    intros Hw Hu Hs Hin. unfold uq_impl, unique_node. destruct (kind vs s); try reflexivity.
+    intros Hu Hs Hpl. unfold uq_impl, unique_node. destruct (kind vs s); try reflexivity.
     apply pairwise_ext_in. intros a b Ha Hb. f_equal.
-    assert (Hch : exists ch, first_some (st_find s) l = Some ch).
-    { apply in_flat_map in Hin. destruct Hin as [t [Ht Hst]]. clear -Ht Hst. induction l as [|y r IHr]; [destruct Ht|].
-      cbn [first_some]. destruct (st_find s y) eqn:E; [eexists; reflexivity|].
-      destruct Ht as [->|Ht]; [exfalso; apply (st_find_some s t Hst E)|apply IHr, Ht]. }
-    destruct Hch as [ch Ech]. destruct (first_some_in _ _ _ Ech) as [x [Hx Ex]].
-    destruct (st_find_plain s x ch (Hw x Hx) Ex) as [Hpl _].
-    assert (Hc : st_children l s = ch) by (unfold st_children; rewrite Ech; reflexivity). rewrite Hc.
-    apply filter_In in Ha. destruct Ha as [Ha Ea]. apply filter_In in Hb. destruct Hb as [Hb Eb].
-    apply N.eqb_eq in Ea. apply N.eqb_eq in Eb.
-    apply all_ctx_iff in Hs. destruct Hs as [_ Hs].
-    pose proof (Hs a Ha) as Sa. pose proof (Hs b Hb) as Sb. rewrite Ea, Hc in Sa. rewrite Eb, Hc in Sb.
+    apply filter_In in Ha. destruct Ha as [Ha _]. apply filter_In in Hb. destruct Hb as [Hb _].
+    rewrite forallb_forall in Hpl.
     apply existsb_ext_in. intros u Hu'. unfold uq_equal, uq_conflict. destruct u as [|p0 u0] eqn:Eu; [reflexivity|]. rewrite <- Eu in *.
+    specialize (Hpl u Hu'). rewrite forallb_forall in Hpl.
     apply forallb_ext_in. intros p Hp. rewrite !uq_val_uqv.
-    rewrite (uvals_impl p ch (d_ch a) Sa (uniques_of_ok s u p Hu Hu' Hp) (fun d Hd => Hpl u p d Hu' Hp Hd)).
-    rewrite (uvals_impl p ch (d_ch b) Sb (uniques_of_ok s u p Hu Hu' Hp) (fun d Hd => Hpl u p d Hu' Hp Hd)).
+    rewrite (uvals_impl p ch (d_ch a) (Hs a Ha) (uniques_of_ok s u p Hu Hu' Hp) (Hpl p Hp)).
+    rewrite (uvals_impl p ch (d_ch b) (Hs b Hb) (uniques_of_ok s u p Hu Hu' Hp) (Hpl p Hp)).
     symmetry. apply common_olist.
+  Qed.
+
+  Lemma uniq_t_eq f t : uniq_ok vs = true -> uniq_placed_t vs t = true ->
+    (forall a l', In a f -> all_ctx (single_ctx vs) l' (d_ch a) = true) ->
+    flat_t uq_impl f t = unique_t vs f t.
+  Proof.
+    intros Hu Hp Hs. induction t as [s ch IH|cid m cs IH|c d ch IH] using stree_ind'; cbn [flat_t unique_t uniq_placed_t] in *;
+      rewrite Forall_forall in IH.
+    - apply andb_true_iff in Hp. destruct Hp as [Hp _]. apply uniq_node_eq; [exact Hu|intros a Ha; apply Hs, Ha|exact Hp].
+    - rewrite forallb_forall in Hp. apply forallb_ext_in. intros x Hx. apply (IH x Hx), Hp, Hx.
+    - rewrite forallb_forall in Hp. apply forallb_ext_in. intros x Hx. apply (IH x Hx), Hp, Hx.
   Qed.
 
   Lemma uniq_all : uniq_ok vs = true -> forall f l, wfu l -> all_ctx (single_ctx vs) l f = true ->
     all_ctx (Pe ENoUniq) l f = all_ctx (unique_ctx vs) l f.
   Proof.
     intro Hu. induction f as [f IH] using forest_ind'. intros l Hw Hs. unfold all_ctx. f_equal.
-    - rewrite Pe_uniq. unfold unique_ctx. apply forallb_ext_in. intros s Hin. apply uniq_node_eq; assumption.
+    - rewrite Pe_uniq. unfold unique_ctx. apply forallb_ext_in. intros t Ht. apply uniq_t_eq; [exact Hu|apply Hw, Ht|].
+      intros a l' Ha. apply all_ctx_iff in Hs. destruct Hs as [_ Hs].
+      rewrite (all_ctx_single_l (d_ch a) l' (st_children l (d_sid a))). apply Hs, Ha.
     - apply forallb_ext_in. intros n Hn. rewrite !all_ctx_node_unfold. apply (IH n Hn).
       + apply st_children_wfu, Hw.
       + apply all_ctx_iff in Hs. apply Hs, Hn.
@@ -1642,18 +1695,18 @@ Section Proofs.
   Qed.
 
   Hypothesis Hwf : vschema_ok vs = true.
-  Hypothesis Hplain : uniq_plain vs = true.
 
   Lemma wf_parts : wf_l (vs_tree vs) /\ key_kinds_ok /\ uniq_ok vs = true /\ wfu (vs_tree vs).
   Proof.
     pose proof Hwf as W. unfold vschema_ok in W.
-    apply andb_true_iff in W. destruct W as [W W4]. apply andb_true_iff in W. destruct W as [W W3].
-    apply andb_true_iff in W. destruct W as [W1 W2]. rewrite forallb_forall in W1, W2. repeat split.
+    apply andb_true_iff in W. destruct W as [W W5]. apply andb_true_iff in W. destruct W as [W W4].
+    apply andb_true_iff in W. destruct W as [W W3]. apply andb_true_iff in W. destruct W as [W1 W2].
+    rewrite forallb_forall in W1, W2, W5. repeat split.
     - apply W1, H.
     - apply W2, H.
     - apply keys_ok_kinds. exact W3.
     - exact W4.
-    - pose proof Hplain as P. unfold uniq_plain in P. rewrite forallb_forall in P. exact P.
+    - exact W5.
   Qed.
 
   Lemma final_classes f :
@@ -1726,35 +1779,35 @@ Proof.
 Qed.
 
 Theorem validate_iff_rfc ty vs f :
-  vschema_ok vs = true -> uniq_plain vs = true -> fresh vs f = true ->
+  vschema_ok vs = true -> fresh vs f = true ->
   (impl_parse_validate vs ty f = VOk <-> rfc_valid ty vs f = true).
 Proof.
-  intros Hw Hp Hf. unfold fresh in Hf. apply andb_true_iff in Hf. destruct Hf as [Hd He].
+  intros Hw Hf. unfold fresh in Hf. apply andb_true_iff in Hf. destruct Hf as [Hd He].
   unfold rfc_valid. rewrite (prune_id vs f He), rules_hold_classes.
-  destruct (parse_validate_spec ty vs Hw Hp f Hd) as [H _]. rewrite H.
+  destruct (parse_validate_spec ty vs Hw f Hd) as [H _]. rewrite H.
   split; intros Ha e; apply class_ok_iff, Ha.
 Qed.
 
 Theorem error_sound ty vs f e :
-  vschema_ok vs = true -> uniq_plain vs = true -> fresh vs f = true ->
+  vschema_ok vs = true -> fresh vs f = true ->
   impl_parse_validate vs ty f = VErr e -> class_ok ty vs f e = false.
 Proof.
-  intros Hw Hp Hf He. unfold fresh in Hf. apply andb_true_iff in Hf. destruct Hf as [Hd _].
-  destruct (parse_validate_spec ty vs Hw Hp f Hd) as [_ H]. specialize (H e He).
+  intros Hw Hf He. unfold fresh in Hf. apply andb_true_iff in Hf. destruct Hf as [Hd _].
+  destruct (parse_validate_spec ty vs Hw f Hd) as [_ H]. specialize (H e He).
   destruct (class_ok ty vs f e) eqn:E; [|reflexivity]. exfalso. apply H, class_ok_iff, E.
 Qed.
 
 Theorem error_class ty vs f e :
-  vschema_ok vs = true -> uniq_plain vs = true -> fresh vs f = true ->
+  vschema_ok vs = true -> fresh vs f = true ->
   class_ok ty vs f e = false -> (forall e', e' <> e -> class_ok ty vs f e' = true) ->
   impl_parse_validate vs ty f = VErr e.
 Proof.
-  intros Hw Hp Hf Hbad Hothers.
+  intros Hw Hf Hbad Hothers.
   destruct (impl_parse_validate vs ty f) as [|e2] eqn:E.
   - exfalso. pose proof Hf as Hf'. unfold fresh in Hf'. apply andb_true_iff in Hf'. destruct Hf' as [Hd _].
-    destruct (parse_validate_spec ty vs Hw Hp f Hd) as [H _]. rewrite E in H.
+    destruct (parse_validate_spec ty vs Hw f Hd) as [H _]. rewrite E in H.
     pose proof (proj1 H eq_refl e) as Hc. apply class_ok_iff in Hc. congruence.
-  - pose proof (error_sound ty vs f e2 Hw Hp Hf E) as H2.
+  - pose proof (error_sound ty vs f e2 Hw Hf E) as H2.
     destruct (verr_dec e2 e) as [->|Hne]; [reflexivity|]. rewrite (Hothers e2 Hne) in H2. discriminate.
 Qed.
 
@@ -1982,7 +2035,7 @@ Section Perm.
   Lemma case_permt l f g : permt f g -> case_ctx l f = case_ctx l g.
   Proof. intro H. unfold case_ctx. apply forallb_ext_in. intros t _. apply case_t_eq, permt_sids, H. Qed.
 
-  Lemma req_eq Pn Pc f g t : sids_eq f g -> (forall s, Pn f s = Pn g s) -> (forall m cs, Pc f m cs = Pc g m cs) ->
+  Lemma req_eq Pn Pc f g t : sids_eq f g -> (forall s ch, Pn f s ch = Pn g s ch) -> (forall m cs, Pc f m cs = Pc g m cs) ->
     forall eff, req vs Pn Pc f eff t = req vs Pn Pc g eff t.
   Proof.
     intros H Hn Hc. induction t as [s ch IH|cid m cs IH|c d ch IH] using stree_ind'; intro eff; cbn [req]; rewrite Forall_forall in IH.
@@ -1994,10 +2047,10 @@ Section Perm.
   Lemma mand_permt l f g : permt f g -> req_ctx vs (mand_node vs) (fun _ _ _ => true) l f = req_ctx vs (mand_node vs) (fun _ _ _ => true) l g.
   Proof.
     intro H. apply permt_sids in H. unfold req_ctx. apply forallb_ext_in. intros t _. apply req_eq; [exact H| |reflexivity].
-    intro s. unfold mand_node. rewrite (has_sid_eq f g s H). reflexivity.
+    intros s ch. unfold mand_node. rewrite (has_sid_eq f g s H). reflexivity.
   Qed.
 
-  Lemma mandc_permt l f g : permt f g -> req_ctx vs (fun _ _ => true) mand_choice l f = req_ctx vs (fun _ _ => true) mand_choice l g.
+  Lemma mandc_permt l f g : permt f g -> req_ctx vs (fun _ _ _ => true) mand_choice l f = req_ctx vs (fun _ _ _ => true) mand_choice l g.
   Proof.
     intro H. apply permt_sids in H. unfold req_ctx. apply forallb_ext_in. intros t _. apply req_eq; [exact H|reflexivity|].
     intros m cs. unfold mand_choice. f_equal. apply existsb_ext_in. intros c _. apply sub_has_data_eq, H.
@@ -2006,7 +2059,7 @@ Section Perm.
   Lemma min_permt l f g : permt f g -> req_ctx vs (min_node vs) (fun _ _ _ => true) l f = req_ctx vs (min_node vs) (fun _ _ _ => true) l g.
   Proof.
     intro H. apply permt_sids in H. unfold req_ctx. apply forallb_ext_in. intros t _. apply req_eq; [exact H| |reflexivity].
-    intro s. unfold min_node. rewrite (count_eq f g s H). reflexivity.
+    intros s ch. unfold min_node. rewrite (count_eq f g s H). reflexivity.
   Qed.
 
   Lemma max_permt l f g : permt f g -> max_ctx vs l f = max_ctx vs l g.
@@ -2065,13 +2118,22 @@ Section Perm.
   Lemma uq_conflict_sym ls u a b : uq_conflict vs ls u a b = uq_conflict vs ls u b a.
   Proof. unfold uq_conflict. destruct u; [reflexivity|]. apply forallb_ext_in. intros p _. apply common_sym. Qed.
 
-  Lemma unique_permt l f g : permt f g -> unique_ctx vs l f = unique_ctx vs l g.
+  Lemma unique_node_permt ls f g s : permt f g -> unique_node vs ls f s = unique_node vs ls g s.
   Proof.
-    intro H. unfold unique_ctx. apply forallb_ext_in. intros s _. unfold unique_node. destruct (kind vs s); try reflexivity.
+    intro H. unfold unique_node. destruct (kind vs s); try reflexivity.
     apply pairwise_permt; [| |apply permt_insts, H].
     - intros a b. f_equal. apply existsb_ext_in. intros u _. apply uq_conflict_sym.
     - intros s' v d m ch ch' b Hc. f_equal. apply existsb_ext_in. intros u _. unfold uq_conflict. destruct u; [reflexivity|].
       apply forallb_ext_in. intros p _. cbn [d_ch]. apply common_perm, uvals_permt, Hc.
+  Qed.
+
+  Lemma unique_permt l f g : permt f g -> unique_ctx vs l f = unique_ctx vs l g.
+  Proof.
+    intro H. unfold unique_ctx. apply forallb_ext_in. intros t _.
+    induction t as [s ch IH|cid m cs IH|c d ch IH] using stree_ind'; cbn [unique_t]; rewrite Forall_forall in IH.
+    - apply unique_node_permt, H.
+    - apply forallb_ext_in. exact IH.
+    - apply forallb_ext_in. exact IH.
   Qed.
 
   Theorem rules_hold_permt f g : permt f g -> rules_hold ty vs f = rules_hold ty vs g.
@@ -2140,11 +2202,11 @@ Lemma fresh_permt vs f g : permt f g -> fresh vs f = fresh vs g.
 Proof. intro H. unfold fresh. rewrite (nodflt_permt f g H), (no_empty_np_permt vs f g H). reflexivity. Qed.
 
 Theorem impl_verdict_permt ty vs f g :
-  vschema_ok vs = true -> uniq_plain vs = true -> fresh vs f = true -> permt f g ->
+  vschema_ok vs = true -> fresh vs f = true -> permt f g ->
   (impl_parse_validate vs ty f = VOk <-> impl_parse_validate vs ty g = VOk).
 Proof.
-  intros Hw Hp Hf H. assert (Hg : fresh vs g = true) by (rewrite <- (fresh_permt vs f g H); exact Hf).
-  rewrite (validate_iff_rfc ty vs f Hw Hp Hf), (validate_iff_rfc ty vs g Hw Hp Hg), (rfc_valid_permt ty vs f g H). reflexivity.
+  intros Hw Hf H. assert (Hg : fresh vs g = true) by (rewrite <- (fresh_permt vs f g H); exact Hf).
+  rewrite (validate_iff_rfc ty vs f Hw Hf), (validate_iff_rfc ty vs g Hw Hg), (rfc_valid_permt ty vs f g H). reflexivity.
 Qed.
 
 (* ------------------------------------------------------------------------------------------- *)
@@ -2171,8 +2233,8 @@ Lemma w1_accepts : impl_validate w1_schema w1_tree = VOk.
 Proof. vm_compute. reflexivity. Qed.
 Lemma w1_invalid : rfc_valid ty_any w1_schema (explicit w1_tree) = false.
 Proof. vm_compute. reflexivity. Qed.
-Lemma w1_wf : vschema_ok w1_schema = true /\ uniq_plain w1_schema = true.
-Proof. vm_compute. split; reflexivity. Qed.
+Lemma w1_wf : vschema_ok w1_schema = true.
+Proof. vm_compute. reflexivity. Qed.
 (* the same tree with every node flagged new is rejected: the flag is what the verdict hangs on *)
 Lemma w1_new_rejected : impl_validate w1_schema (map mark_new (explicit w1_tree)) = VErr EDup.
 Proof. vm_compute. reflexivity. Qed.
@@ -2182,13 +2244,18 @@ Definition w2_schema : vschema :=
   mk_vschema [(0, si KList None [1] [] false 0 None); (1, si KLeaf (Some 0) [] [] false 0 None);
               (2, si (KCont true) (Some 0) [] [] false 0 None); (3, si KLeaf (Some 2) [] [[100]] false 0 None)]
              [TNode 0 [TNode 1 []; TNode 2 [TNode 3 []]]] [(0, [[[2; 3]]])].
-(* two entries without the presence container: x neither exists nor has a default in use *)
+(* two entries without the presence container: x neither exists nor has a default in use. Regression case of the
+   former finding unique-default-not-in-use (fixed by ba1198e): the instance is valid and accepted. *)
 Definition w2_tree : forest :=
   [DN 0 [] false [] [DN 1 [49] false [] []]; DN 0 [] false [] [DN 1 [50] false [] []]].
+(* with the presence container in both entries the default of x is in use twice: data-not-unique *)
+Definition w2_tree_p : forest :=
+  [DN 0 [] false [] [DN 1 [49] false [] []; DN 2 [] false [] []]; DN 0 [] false [] [DN 1 [50] false [] []; DN 2 [] false [] []]].
 
 Lemma w2_facts :
   vschema_ok w2_schema = true /\ fresh w2_schema w2_tree = true /\ rfc_valid ty_any w2_schema w2_tree = true /\
-  impl_parse_validate w2_schema ty_any w2_tree = VErr ENoUniq /\ uniq_plain w2_schema = false.
+  impl_parse_validate w2_schema ty_any w2_tree = VOk /\
+  rfc_valid ty_any w2_schema w2_tree_p = false /\ impl_parse_validate w2_schema ty_any w2_tree_p = VErr ENoUniq.
 Proof. vm_compute. repeat split; reflexivity. Qed.
 
 (* a schema with every modelled construct and a valid instance of it: the hypotheses of the theorems are satisfiable
@@ -2227,7 +2294,7 @@ Definition ex_dup_key : forest :=
    DN 4 [] false [] [DN 5 [49] false [] []]; DN 4 [] false [] [DN 5 [49] false [] []; DN 6 [101] false [] []]].
 
 Lemma ex_facts :
-  vschema_ok ex_schema = true /\ uniq_plain ex_schema = true /\ fresh ex_schema ex_tree = true /\
+  vschema_ok ex_schema = true /\ fresh ex_schema ex_tree = true /\
   rfc_valid ty_any ex_schema ex_tree = true /\ impl_parse_validate ex_schema ty_any ex_tree = VOk /\
   impl_parse_validate ex_schema ty_any ex_no_mand = VErr ENoMand /\
   impl_parse_validate ex_schema ty_any ex_no_choice = VErr ENoMandChoice /\
@@ -2241,27 +2308,16 @@ Proof. vm_compute. repeat split; reflexivity. Qed.
 (* the statement for trees with ARBITRARY flags (values of their types, list entries with their keys) *)
 Definition validate_iff_rfc_flags_statement : Prop :=
   forall ty vs (t : vforest),
-    vschema_ok vs = true -> uniq_plain vs = true ->
+    vschema_ok vs = true ->
     rfc_types ty vs (explicit t) = true -> rfc_keys vs (explicit t) = true ->
     (impl_validate vs t = VOk <-> rfc_valid ty vs (explicit t) = true).
 
 Lemma validate_iff_rfc_flags_refuted : ~ validate_iff_rfc_flags_statement.
 Proof.
-  intro H. specialize (H ty_any w1_schema w1_tree (proj1 w1_wf) (proj2 w1_wf)).
+  intro H. specialize (H ty_any w1_schema w1_tree w1_wf).
   assert (H1 : rfc_types ty_any w1_schema (explicit w1_tree) = true) by (vm_compute; reflexivity).
   assert (H2 : rfc_keys w1_schema (explicit w1_tree) = true) by (vm_compute; reflexivity).
   specialize (H H1 H2). rewrite w1_accepts, w1_invalid in H. destruct H as [H _]. specialize (H eq_refl). discriminate.
-Qed.
-
-(* the statement for fresh trees WITHOUT the restriction on unique statements *)
-Definition validate_iff_rfc_fresh_statement : Prop :=
-  forall ty vs f, vschema_ok vs = true -> fresh vs f = true ->
-    (impl_parse_validate vs ty f = VOk <-> rfc_valid ty vs f = true).
-
-Lemma unique_default_refuted : ~ validate_iff_rfc_fresh_statement.
-Proof.
-  intro H. destruct w2_facts as [A [B [C [D _]]]]. specialize (H ty_any w2_schema w2_tree A B).
-  rewrite C, D in H. destruct H as [_ H]. specialize (H eq_refl). discriminate.
 Qed.
 
 Lemma apptag_table :
@@ -2272,18 +2328,14 @@ Lemma apptag_table :
   apptag ENoMand = [] /\ apptag EDup = [] /\ apptag EDupCase = [] /\ apptag EKey = [] /\ apptag EType = [].
 Proof. repeat split; reflexivity. Qed.
 
-Lemma error_class_report ty vs f e :
-  vschema_ok vs = true -> uniq_plain vs = true -> fresh vs f = true ->
-  class_ok ty vs f e = false -> (forall e', e' <> e -> class_ok ty vs f e' = true) ->
-  impl_parse_validate vs ty f = VErr e /\ report e = (7, 9, apptag e).
-Proof. intros. split; [apply error_class; assumption|reflexivity]. Qed.
+
 
 
 (* container top (0) { choice ch mandatory { case a { leaf x (1); choice inner default d1 { case d1 { leaf y (2) default 5 }
    case d2 { leaf w (3) } } } case b { leaf z (4) } } leaf keep (5) }
-   The tree after: parse + validate <top><x/><keep/></top> (y is added as a default node), lyd_free_tree(x): y (flagged
-   default) keeps case a alive - lyd_validate_autodel_case_dflt looks at the innermost case d1 only, which is a default
-   case - and the mandatory choice counts as satisfied. *)
+   The tree after: parse + validate <top><x/><keep/></top> (y is added as a default node), lyd_free_tree(x). Before
+   357db45 y (flagged default) kept case a alive - lyd_validate_autodel_case_dflt looked at the innermost case d1 only,
+   which is a default case - and the mandatory choice counted as satisfied. *)
 Definition w3_schema : vschema :=
   mk_vschema [(0, si (KCont false) None [] [] false 0 None); (1, si KLeaf (Some 0) [] [] false 0 None);
               (2, si KLeaf (Some 0) [] [[53]] false 0 None); (3, si KLeaf (Some 0) [] [] false 0 None);
@@ -2294,17 +2346,17 @@ Definition w3_schema : vschema :=
 Definition w3_tree : vforest :=
   [VN 0 [] false false [] [VN 2 [53] true false [] []; VN 5 [107] false false [] []]].
 
+(* Regression case of the former finding stale-nested-default-case (fixed by 357db45): the stale default y is
+   auto-deleted and the mandatory choice is reported, as for the explicit content parsed afresh. *)
 Lemma w3_facts :
-  vschema_ok w3_schema = true /\ uniq_plain w3_schema = true /\
-  impl_validate w3_schema w3_tree = VOk /\ rfc_valid ty_any w3_schema (explicit w3_tree) = false /\
+  vschema_ok w3_schema = true /\
+  impl_validate w3_schema w3_tree = VErr ENoMandChoice /\ rfc_valid ty_any w3_schema (explicit w3_tree) = false /\
   rfc_mand_choice w3_schema (explicit w3_tree) = false /\
   impl_parse_validate w3_schema ty_any (explicit w3_tree) = VErr ENoMandChoice.
 Proof. vm_compute. repeat split; reflexivity. Qed.
 
-Lemma stale_default_refuted : ~ validate_iff_rfc_flags_statement.
-Proof.
-  intro H. destruct w3_facts as [A [B [C [D _]]]]. specialize (H ty_any w3_schema w3_tree A B).
-  assert (H1 : rfc_types ty_any w3_schema (explicit w3_tree) = true) by (vm_compute; reflexivity).
-  assert (H2 : rfc_keys w3_schema (explicit w3_tree) = true) by (vm_compute; reflexivity).
-  specialize (H H1 H2). rewrite C, D in H. destruct H as [H _]. specialize (H eq_refl). discriminate.
-Qed.
+Lemma error_class_report ty vs f e :
+  vschema_ok vs = true -> fresh vs f = true ->
+  class_ok ty vs f e = false -> (forall e', e' <> e -> class_ok ty vs f e' = true) ->
+  impl_parse_validate vs ty f = VErr e /\ report e = (7, 9, apptag e).
+Proof. intros. split; [apply error_class; assumption|reflexivity]. Qed.
